@@ -400,6 +400,9 @@ class Interp:
                 lam = self.closure_of(e['args'][0], env)
                 if lam is not None:
                     return self.invoke_closure(lam, e['args'][1:], env)
+                fv_ = env.get(e['args'][0].get('id'))
+                if isinstance(fv_, _Functor) and len(e['args']) == 3:
+                    return self.binop(fv_.op, self.expr(e['args'][1], env), self.expr(e['args'][2], env))
             if op in ('++', '--') and e['args']:
                 cur = self.expr(e['args'][0], env)
                 new = (cur or 0) + (1 if op == '++' else -1)
@@ -473,6 +476,9 @@ class Interp:
                 if r is not _NOPE:
                     return r
             fs = [f for f in self.p.resolve(e) if f.body]
+            if not fs and k == 'call' and SX.callee(e):
+                # a call written inside a function template is resolved at instantiation; by name, when one function bears it
+                fs = [f for f in self.p.by_name.get(SX.callee(e), []) if f.body and f.kind != 'lambda']
             if len(fs) == 1:
                 args = [self.expr(a, env) for a in SX.real_args(e)]
                 if k == 'mcall' and SX.is_node(e.get('obj')):
@@ -497,7 +503,9 @@ class Interp:
                 cv = self.expr(e['calleeExpr'], env)
                 if isinstance(cv, dict) and cv.get('k') == 'lambda':
                     return self.invoke_closure(cv, e.get('args', []), env)
-            raise Unsupported('call ' + SX.callee(e))
+                if isinstance(cv, _Functor) and len(e.get('args', [])) == 2:
+                    return self.binop(cv.op, self.expr(e['args'][0], env), self.expr(e['args'][1], env))
+            raise Unsupported('call ' + SX.callee(e) + ' ' + SX.show(e)[:80] + ' resolved=%d' % len(self.p.resolve(e)))
         if k == 'construct':
             t = SX.short_type(e['type'])
             if 'ctor:' + t in self.models:
@@ -521,6 +529,10 @@ class Interp:
                         except Ret:
                             pass
                     return o
+            if len(a) == 2 and e['type'].replace('const ', '').startswith('std::pair<'):
+                return Obj(first=self.expr(a[0], env), second=self.expr(a[1], env))
+            if not a and e['type'].replace('const ', '').split('<')[0] in _FUNCTORS:
+                return _Functor(_FUNCTORS[e['type'].replace('const ', '').split('<')[0]])
             if len(a) == 1 and e['type'].startswith('std::vector'):
                 n = self.expr(a[0], env)
                 if isinstance(n, int) and not isinstance(n, bool):
@@ -541,6 +553,8 @@ class Interp:
                     return {}
             raise Unsupported('construct ' + e['type'])
         if k == 'initlist':
+            if not e.get('items') and (e.get('type') or '').replace('const ', '').split('<')[0] in _FUNCTORS:
+                return _Functor(_FUNCTORS[e['type'].replace('const ', '').split('<')[0]])
             rec = self.p.facts.records.get(e['type']) or self.p.facts.records.get((e.get('type') or '').replace('const ', '').strip())
             if rec is None and e.get('type') in ('void', '<dependent type>') and len(e.get('items', [])) > 1:
                 # a braced return value inside a generic lambda (`-> Value { return {Value::Type::Int, …}; }`): the target type is
@@ -845,6 +859,20 @@ class Interp:
         if op == '^':
             return a ^ b
         raise Unsupported('binary ' + op)
+
+
+_FUNCTORS = {'std::plus': '+', 'std::minus': '-', 'std::multiplies': '*', 'std::divides': '/', 'std::modulus': '%', 'std::greater': '>', 'std::less': '<',
+             'std::greater_equal': '>=', 'std::less_equal': '<=', 'std::equal_to': '==', 'std::not_equal_to': '!=', 'std::bit_and': '&', 'std::bit_or': '|',
+             'std::bit_xor': '^', 'std::logical_and': '&&', 'std::logical_or': '||'}
+
+
+class _Functor:
+    """a standard function object (`std::plus<>{}`): applying it is applying the operator it names"""
+    def __init__(self, op):
+        self.op = op
+
+    def __deepcopy__(self, memo):
+        return self
 
 
 class _Break(Exception):
